@@ -99,7 +99,7 @@ def generate(rng, profile="any", ndefs=None, nlibs=None, style="simple", max_chi
             if r.random() < 0.3:
                 plist = []
                 for q in range(r.choice([1, 1, 2, 3])):
-                    pr = {"identifier": "P%d" % q if q else "INIT", "value": r.choice([1, "8'h2A", True, "soft lut", 0, -3, -90])}
+                    pr = {"identifier": "P%d" % q if q else "INIT", "value": r.choice([1, "8'h2A", True, "soft lut", 0, -3, -90, "X0\tY1"])}
                     if r.random() < 0.4:
                         pr["original_identifier"] = pr["identifier"] + r.choice([".o", "[0]", " x"])
                     plist.append(pr)
